@@ -31,6 +31,15 @@ CHECKS = {
             "deltas: store receives exactly what the meta-filter approved, version/log/snapshot discipline, kill-switch inertness.",
             "Trusted: all-or-nothing store double; the cadence rule int(turn) % n == 0 from apply.py's docstring.",
             "DESIGN.md §3 C04"),
+    "C05": ("exploration",
+            "Hypothesis rule-based state machine, differential: cached engine vs cache-free twin over identical worlds, compared after every turn",
+            "Stateful differential over histories of turns (2 agents, 4 texts, 2-5 recurring config variants incl. perf gate open/closed "
+            "with caps kept, now advances across the recency boundary), graph upserts (new ids and same-count edits), memory additions, "
+            "kill-switch toggles and switches between two same-shaped engine states living in one process; the (t1, t2) each turn "
+            "really used (observed at health.check_and_log, so turn-level cache hits are seen) and the utterance must equal the "
+            "cache-free twin's; agent-scope owner isolation asserted directly. Cache configs: stage LRU, perf byte caches, turn-level manager.",
+            "Trusted: cache-free twin as oracle (same code, caches off); TTL expiry not exercised.",
+            "DESIGN.md §3 C05"),
     "C11": ("exploration",
             "Hypothesis property test: envelope predicates + exact differential against a float64 reference retrieval on well-separated cases + metamorphic rerank-off relation",
             "Generated memories (owners, timestamps around the recency window, clusters, importance, bag-of-words/explicit/zero/missing "
